@@ -6,8 +6,12 @@ BMC = "bounded model checking of the real Rust source (Kani/CBMC symbolic execut
 CLAIMS = {
  'C06': ("For every (days, secs) pair OpenSSL's time difference can return (full i32 range of days) the solver shows expires_in is the exact remaining lifetime clamped at 0, with no overflow; renew_in/schedule_renewal arithmetic per DESIGN.md C06.",
          "Trusted: OpenSSL ASN.1 time parsing/diff (modelled by contract), rustc->Kani->CBMC translation. Bounds and cuts are listed in the evidence file of each run.", "5 C06"),
+ 'C08': ("For every ASCII problem-type string up to 48 bytes the solver shows that the real classification retries exactly the seven recoverable ACME types; the retry loop of http::post is covered per DESIGN.md C08 as far as its harness converged.",
+         "serde_json parsing of the problem document and reqwest are trusted; non-ASCII / longer type strings are outside the bound.", "5 C08"),
  'C09': ("Inductive single step of the real RateLimit::block_until_allowed from an arbitrary log: window count and no-forgetting invariants hold for every log content, period 1..20 s and clock reading (n<=3, <=2 limits); with the induction argument in DESIGN.md this bounds every window of every history. Liveness: a permitted request returns after one sleep.",
          "Whole-second clock; sleep/Instant::now replaced by over-approximating models; n<=3, periods<=20 s, <=2 limits; http.rs call sites covered only as far as DESIGN.md C09 says.", "5 C09"),
+ 'C14': ("For each of the 14 Option-typed [global] options and every presence pattern in including/included file the solver shows the later file wins on a verbatim slice of read_cnf; sections are concatenated; renew_delay / random_early_renew / file_name_format / directory take the most specific level for every presence pattern; unresolved endpoint / rate-limit references are rejected.",
+         "Source slice of read_cnf (inline merge code), parse_duration replaced by a tag model in this unit, glob/include-graph/file I/O and the [global] env table outside (see evidence 'outside_bounds').", "5 C14"),
  'C19': ("For every period string inside the stated shapes the solver shows no panic/overflow and acceptance exactly per the documented grammar with the exact sum; zero/huge rate limits neither divide by zero nor refuse the first request forever; hook-group recursion bounded.",
          "TOML/serde layer, include cycles and file I/O are outside (not_applicable parts listed in DESIGN.md C19). fmt::format stubbed where message text is irrelevant.", "5 C19"),
 }
